@@ -77,6 +77,15 @@ RECURSIVE RefList(_, _)
 RefList(t, i) == i + 1 <= Len(t) /\ t[i] = "ref" /\ ((t[i + 1] = "rp" /\ i + 1 = Len(t)) \/ (t[i + 1] = "cm" /\ RefList(t, i + 2)))
 ClearlyLegalSimple(s) == LET t == Lex(s, 1) IN Len(t) >= 4 /\ t[1] = "name" /\ t[2] = "lp" /\ RefList(t, 3)
 
+(***************************************************************************)
+(* Which arg a reference reaches (find_arg): the search goes down from the *)
+(* element that carries the intent through elements that have neither an   *)
+(* arg nor an intent of their own; an arg below ANOTHER arg or below        *)
+(* another intent belongs to that one - the reference is dangling.          *)
+(***************************************************************************)
+Placements == {"child", "below-plain", "below-other-arg", "below-other-intent", "absent"}
+InScope(p) == p \in {"child", "below-plain"}
+
 CONSTANTS MaxLen
 VARIABLES str
 Init == str = <<>>
